@@ -25,5 +25,7 @@ Txs ==
 Next == \E tx \in Txs : IF OnlyOk THEN StepOk(tx) ELSE Step(tx)
 Bound == g.steps <= MaxSteps
 View == w
+HuntBound == /\ \A a \in BankAccts, d \in Denoms : w.bank[a][d] <= 1000000
+             /\ TotalDeleg(w) <= 1000000      \* price flips compound by 1000x per swap: keep simulation inside TLC's 31-bit integers
 EmitTrace == TLCGet("level") # EmitLen \/ PrintT(<<"TRACE", ToJson([i \in 1..Len(Trace) |-> [w |-> Trace[i].w, ev |-> Trace[i].ev, obs |-> Trace[i].obs]])>>)
 =============================================================================
